@@ -22,14 +22,22 @@ def sh(cmd, cwd=None, timeout=1800):
 
 def repo_tests(cwd):
     """the repo's own suite; the two known-flaky reflection client tests are retried"""
-    for attempt in range(3):
-        rc, out = sh("go test -vet=off -count=1 ./...", cwd=cwd)
+    flaky = ("Test_client_UnimplementedErrors", "Test_client_SendErrors")
+    rc, out = sh("go test -vet=off -count=1 ./...", cwd=cwd)
+    if rc == 0:
+        return True, ""
+    fails = re.findall(r"^--- FAIL: (\S+)", out, re.M)
+    if not (fails and all(f.startswith(flaky) for f in fails)):
+        return False, out[-3000:]
+    # only the known-flaky reflection client tests failed (they fail the same way on the unchanged tree, more often
+    # under load): every other package passed in this run; re-run that package alone until it passes once
+    for attempt in range(8):
+        rc, out = sh("go test -vet=off -count=1 ./reflection/", cwd=cwd)
         if rc == 0:
             return True, ""
         fails = re.findall(r"^--- FAIL: (\S+)", out, re.M)
-        if fails and all(f.startswith(("Test_client_UnimplementedErrors", "Test_client_SendErrors")) for f in fails):
-            continue
-        return False, out[-3000:]
+        if not (fails and all(f.startswith(flaky) for f in fails)):
+            return False, out[-3000:]
     return False, out[-3000:]
 
 
